@@ -76,6 +76,12 @@ def reindex_rules(run: Run, model: PyModel, rids: dict[str, str]) -> None:
                 run.check(rids["ack"], "file_hash.json never acknowledges a page before that page is committed", ok, "reindex_database", f"hash map written with {sorted(acked_early)} pending",
                           f"file_hash.json is written with the new hashes of {sorted(acked_early)} before those pages are added and committed: a refusal or a crash in between leaves them "
                           "recorded as up to date and they are skipped forever", file=FILE_H, node=fq.node)
+            mid = [d for d in dumps if any(a > d for a in adds)]
+            conforms &= not mid
+            run.check(rids["ack"], "file_hash.json is not written while pages remain to be processed", not mid, "reindex_database", f"{len(mid)} hash-map writes inside the page loop",
+                      f"file_hash.json is written {len(mid)} times before the last page has been processed (effects: {[t[0] + (':' + str(t[1]) if len(t) > 1 else '') for t in trace if t[0] in ('add', 'commit', 'json_dump')][:14]}): "
+                      "the ZID / modify-date write-back of a page runs only after the whole command, so a refusal or a kill later in the same run leaves an acknowledged page whose file never "
+                      "receives what the index already holds -- and the next run skips it", file=FILE_H, node=fq.node)
             final = trace[dumps[-1]][2] if dumps else None
             if isinstance(final, dict):
                 wrong = {k: x for k, x in final.items() if files.get(k) != x}
@@ -117,10 +123,11 @@ def reindex_rules(run: Run, model: PyModel, rids: dict[str, str]) -> None:
             acked = []
             for t in trace:
                 if t[0] == "json_dump" and t[1] == W2.hash_path and isinstance(t[2], dict):
-                    acked += [k for k in ("D.zo", "F.zo") if t[2].get(k) == files2[k]]
-            run.check(rids["refuse"], "a refused run does not record the refused page (or pages after it) as up to date", not acked, "reindex_database", f"acknowledged {sorted(set(acked))}",
-                      f"although the run is refused at D.zo, file_hash.json already holds the new hashes of {sorted(set(acked))}: the next run skips them and the broken page is accepted silently",
-                      file=FILE_H, node=fq.node)
+                    acked += [k for k in ("B.zo", "D.zo", "F.zo") if t[2].get(k) == files2[k]]
+            run.check(rids["refuse"], "a refused run records no page as up to date (neither the refused one, nor pages after it, nor pages already committed whose write-back never runs)", not acked,
+                      "reindex_database", f"acknowledged {sorted(set(acked))}",
+                      f"although the run is refused at D.zo, file_hash.json already holds the new hashes of {sorted(set(acked))}: the next run skips them -- a broken page is accepted silently, "
+                      "and a committed page loses its pending ZID / modify-date write-back", file=FILE_H, node=fq.node)
             if imprecise and refused:
                 run.undecided(rids["refuse"], "reindex_database", "broken page: " + "; ".join(imprecise[:2]))
         # a whitelisted broken page is indexed and stays whitelisted
@@ -167,6 +174,28 @@ def reindex_rules(run: Run, model: PyModel, rids: dict[str, str]) -> None:
             run.check(rids["ack"], "a reindex restricted to some pages does not acknowledge the others", not acked and walked == ["B.zo"], "reindex_database", f"`db reindex B.zo`: compiled {walked}, A.zo acknowledged={bool(acked)}",
                       f"`db reindex B.zo` with A.zo also edited: compiled {walked}; file_hash.json afterwards records A.zo's NEW hash although A.zo was never re-read: its edit is missed by every later reindex",
                       file=FILE_H, node=fq.node)
+        # the same, entered through the CLI runner (`zorg db reindex /Z/B.zo`): the command the runner builds must name the page as the user did
+        if "order" in rids or "recover" in rids:
+            from .absval import HObj as _H
+
+            rq = "zorg.app.runners._run_db.run_db_reindex"
+            if model.has_func(rq):
+                W7 = World(model, files=files6, old_map={"A.zo": "hA1", "B.zo": "hB1"}, indexed={"A.zo", "B.zo"}, errors=set(), whitelist=[""])
+                try:
+                    res7 = W7.run_through_runner(rq, lambda st: dict(zettel_dir=vpath("/Z"), database_url="sqlite:///Z/.zorg/zorg.db", verbose=0, paths=st.alloc(_H("list", items=[vpath("/Z/B.zo")]))))
+                except Exception as e:  # noqa: BLE001
+                    res7 = []
+                    run.undecided(rids.get("order", rids.get("recover")), "run_db_reindex", f"cannot interpret the runner: {type(e).__name__}: {str(e)[:100]}")
+                for v, trace, imprecise in res7:
+                    n += 1
+                    removed = [t[1] for t in trace if t[0] == "remove"]
+                    if imprecise or isinstance(v, Raised):
+                        run.undecided(rids.get("order", rids.get("recover")), "run_db_reindex", (f"raises {v.exc}" if isinstance(v, Raised) else "; ".join(imprecise[:2])))
+                        continue
+                    run.check(rids.get("order", rids.get("recover")), "`zorg db reindex <page>` through its runner removes and re-adds the page under its own key", removed == ["B.zo"], "run_db_reindex",
+                              f"runner: removed {removed}",
+                              f"`zorg db reindex /Z/B.zo` (notes directory reached through a symlink), entered through run_db_reindex, removes {removed} from the index instead of 'B.zo': the runner hands the handler "
+                              "a path spelled differently from the notes directory (resolved / made absolute), so the page is indexed a second time under another key", file="src/zorg/app/runners/_run_db.py")
     run.floor("abstract runs of reindex_database", n, 1)
 
 
@@ -314,3 +343,23 @@ def create_rules(run: Run, model: PyModel, rid: str) -> None:
             if imprecise:
                 run.undecided(rid, "create_database", f"{label}: " + "; ".join(imprecise[:2]))
     run.floor("abstract runs of create_database", n, 5)
+
+
+def nextids_untouched(run: Run, model: PyModel, rid: str) -> None:
+    """`db create` / `db reindex` themselves never delete, truncate or rewrite next_ids.json (the per-date ZID counters belong to the allocator alone; the index is rebuilt, the
+    counters are not): abstract runs of both command handlers over a virtual notes directory whose data directory lists its three files; page indexing is a recorded stub, so any
+    effect on the counter file in the trace comes from the handlers."""
+    n = 0
+    for q, label in ((f"{H}.create_database", "db create"), (f"{H}.reindex_database", "db reindex")):
+        fq = model.func(q)
+        W = World(model, files={"A.zo": "hA2", "B.zo": "hB"}, old_map={"A.zo": "hA1", "B.zo": "hB"}, indexed={"A.zo", "B.zo"}, errors=set(), whitelist=[""])
+        for v, trace, imprecise in _runs(run, rid, W, q, dict(paths=None, update_error_file_whitelist=False), f"{label}: counters"):
+            n += 1
+            if isinstance(v, Raised) or imprecise:
+                run.undecided(rid, fq.name, f"{label}: " + (f"raises {v.exc}" if isinstance(v, Raised) else "; ".join(imprecise[:2])))
+                continue
+            hits = [t for t in trace if len(t) > 1 and t[1] == W.nextids_path and t[0] in ("unlink", "write_text", "open_w", "json_dump", "rename")]
+            run.check(rid, f"{label} leaves next_ids.json alone", not hits, fq.name, f"{label}: {[t[0] for t in hits]} on next_ids.json",
+                      f"{label} performs {[t[0] for t in hits]} on .zorg/next_ids.json: the per-date ZID counters restart, and the next allocation on a date hands out a ZID that a note in some page already carries",
+                      file=FILE_H, node=fq.node)
+    run.floor("command runs checked for effects on next_ids.json", n, 2)
